@@ -103,6 +103,22 @@ impl<T: Read + Write + ScmSocket> HttpConnection<T> {
         // `read_cursor` bytes present in the buffer.
         let end_cursor = self.read_bytes()?;
 
+        let result = self.parse_received_bytes(end_cursor);
+        if let Err(ConnectionError::ParseError(_)) = result {
+            // Nothing of the rejected request may survive the error: drop the partially parsed
+            // request and the buffered bytes so that parsing restarts clean with the next read.
+            self.state = ConnectionState::WaitingForRequestLine;
+            self.pending_request = None;
+            self.read_cursor = 0;
+            self.body_vec.clear();
+            self.body_bytes_to_be_read = 0;
+            self.files.clear();
+        }
+        result
+    }
+
+    /// Runs the state machine over the bytes in `buffer[..end_cursor]`.
+    fn parse_received_bytes(&mut self, end_cursor: usize) -> Result<(), ConnectionError> {
         let mut line_start_index = 0;
         loop {
             match self.state {
